@@ -719,9 +719,10 @@ def rule_e(repo, chk):
 def describe(chk):
     chk.undecided('that infer on an attribute/index path reports the right class (run-time values); user code run by protocols the property '
                   'does not list (__repr__, __dir__, __eq__, __getattr__/__getattribute__, arithmetic)')
-    chk.assume('fetches of fixed dunder data attributes of the live object (o.__class__, o.__mro__, o.__module__, o.__iter__, o.__getitem__, '
-               'o.__annotations__, o.__file__ ...) and the named methods .values()/.keys() under an isinstance(dict) test are outside the '
-               'property\'s list and are not treated as sinks')
+    chk.assume('fetches of fixed dunder attributes of the live object by jedi\'s own introspection (o.__class__, o.__mro__, o.__module__, '
+               'o.__name__, o.__doc__, o.__wrapped__, o.__annotations__, o.__file__, inspect.unwrap/getdoc/signature/getsourcefile ...) are not '
+               'treated as sinks: a property NAMED like one of these dunders does run in safe mode (genuine, recorded in DESIGN 6.3, witness '
+               'witness/c13_introspection_dunder_properties.py; no small patch exists)')
     chk.assume('live object = `<x>._obj`, its plain local aliases, and parameters named obj/python_object in compiled/access.py and compiled/mixed.py')
 
 
